@@ -58,3 +58,46 @@ def float_bounds_exact(a: Optional[float], b: Optional[float], v: float) -> bool
     r2 = f.validate(cfg, r)
     hold("accept", r2 == r or _isnan(r), "not idempotent")
     return True
+
+
+FRACS = (0.5, -0.5, 1023.5, 2.0, -3.25, 1e300)
+
+
+@obligation(prop="C05", sites=("accept", "reject"), encodes=ENC, budget={"quick": 120, "thorough": 300},
+            what="IntField / PortField declared with NON-INTEGRAL bounds (the signature allows int or float; bounds "
+                 "from a menu incl. +-0.5, 1023.5): an integer (menu around the bounds) is accepted iff min <= v <= max in exact arithmetic")
+def int_field_fractional_bounds(ai: int, bi: int, vi: int, use_min: bool, use_max: bool, port: bool) -> bool:
+    """
+    pre: 0 <= ai < 6 and 0 <= bi < 6 and 0 <= vi < 8
+    post: _
+    """
+    from cincoconfig import PortField
+    v = 0
+    for n, cand in enumerate((0, 1, -1, 2, 1023, 1024, -3, -4)):
+        if vi == n:
+            v = cand
+    a = b = None
+    for n in range(6):
+        if use_min and ai == n:
+            a = FRACS[n]
+        if use_max and bi == n:
+            b = FRACS[n]
+    if not use_min and ai:
+        skip("unused")
+    if not use_max and bi:
+        skip("unused")
+    kw = {}
+    if a is not None:
+        kw["min"] = a
+    if b is not None:
+        kw["max"] = b
+    f = PortField(**kw) if port else IntField(**kw)
+    lo = a if a is not None else (1 if port else None)
+    hi = b if b is not None else (65535 if port else None)
+    want = (lo is None or v >= lo) and (hi is None or v <= hi)
+    try:
+        r = f.validate(_cfg(), v)
+    except ValueError:
+        return hold("reject", not want, lambda: "%r rejected with bounds (%r, %r)" % (v, lo, hi))
+    hold("accept", want and r == v, lambda: "%r accepted with bounds (%r, %r)" % (v, lo, hi))
+    return True
